@@ -416,11 +416,20 @@ def holdsC08 (h : History) (tr : ImplTrace) : Verdict := Id.run do
   let mut vals : Array Val := #[]
   let mut varNode : Array Nat := #[]     -- var ↦ creation index of its watch node
   let mut tokHdl : Array Nat := #[]      -- token ↦ handler definition
+  -- vars written since their watch node last ran (the next stabilise in which the node is needed must run it)
+  let mut written : List Nat := []
+  -- vars whose (only) handle a closure or the program has dropped: closures can no longer write them
+  let mut dropped : List Nat := []
   let mut idx := 0
-  let effs (es : List Effect) (vs : Array Val) : Array Val := es.foldl (fun vs e => match e with
-    | .setVar v x | .replaceVar v x => vs.modify v fun _ => x
-    | .modifyVar v d | .updateVar v d | .replaceWithVar v d => vs.modify v fun x => addInt7 x d
-    | _ => vs) vs
+  -- effects of one closure run: (values, written, dropped)
+  let effs (es : List Effect) (st : Array Val × List Nat × List Nat) : Array Val × List Nat × List Nat :=
+    es.foldl (fun (vs, wr, dr) e => match e with
+      | .setVar v x | .replaceVar v x =>
+        if dr.contains v then (vs, wr, dr) else (vs.modify v fun _ => x, v :: wr, dr)
+      | .modifyVar v d | .updateVar v d | .replaceWithVar v d =>
+        if dr.contains v then (vs, wr, dr) else (vs.modify v fun x => addInt7 x d, v :: wr, dr)
+      | .dropVar v => (vs, wr, if dr.contains v then dr else v :: dr)
+      | _ => (vs, wr, dr)) st
   for a in h.actions do
     let rec_ := tr[idx]?.getD {}
     match a with
@@ -429,18 +438,21 @@ def holdsC08 (h : History) (tr : ImplTrace) : Verdict := Id.run do
       match rec_.api.splitOn "#" with
       | [_, n] => varNode := varNode.push (n.toNat?.getD 0)
       | _ => varNode := varNode.push 0
-    | .set v x => vals := vals.modify v fun _ => x
-    | .modify v d | .update v d => vals := vals.modify v fun x => addInt7 x d
+    | .set v x => vals := vals.modify v fun _ => x; written := v :: written
+    | .modify v d | .update v d => vals := vals.modify v fun x => addInt7 x d; written := v :: written
     | .replace v x =>
       let old := vals[v]?.getD .unit
       if rec_.api != "ok " ++ old.render then
         return some s!"action {idx}: replace returned `{rec_.api}`, the value was {old.render}"
       vals := vals.modify v fun _ => x
+      written := v :: written
     | .replaceWith v d =>
       let old := vals[v]?.getD .unit
       if rec_.api != "ok " ++ old.render then
         return some s!"action {idx}: replace_with returned `{rec_.api}`, the value was {old.render}"
       vals := vals.modify v fun x => addInt7 x d
+      written := v :: written
+    | .dropVar v => if rec_.api == "ok" && !(dropped.contains v) then dropped := v :: dropped
     | .subscribe _ hid => if rec_.api.startsWith "ok t" then tokHdl := tokHdl.push hid
     | .get v =>
       let cur := vals[v]?.getD .unit
@@ -456,13 +468,21 @@ def holdsC08 (h : History) (tr : ImplTrace) : Verdict := Id.run do
               let want := (vals[v]?.getD .unit).render
               if sn.val != want then
                 return some s!"action {idx}: var v{v} was recomputed to {sn.val} but its value when stabilise was called was {want}"
+            -- a written variable that is needed is seen by the graph at THIS stabilise (also when the value
+            -- written equals the old one: the watch node runs, its cutoff decides what happens next)
+            if written.contains v then
+              if sn.r + 1 == rec_.statInt "num" then written := written.filter (· != v)
+              else if sn.nec && sn.valid then
+                return some s!"action {idx}: var v{v} was written before this stabilise and is needed, but its watch node did not run"
           | none => pure ()
       -- deferred writes: effects of the closures that ran, in order; bind closures that ran made their
       -- `scopedvar` variables (numbered in the order of the runs; their watch nodes are not followed)
       for (f, _, args, _) in invs rec_ do
         if f.startsWith "f" then
           match (f.drop 1).toString.toNat? with
-          | some fi => vals := effs ((h.defs.fns.lookup fi).map (·.effects) |>.getD []) vals
+          | some fi =>
+            let (vs, wr, dr) := effs ((h.defs.fns.lookup fi).map (·.effects) |>.getD []) (vals, written, dropped)
+            vals := vs; written := wr; dropped := dr
           | none => pure ()
         if f.startsWith "b" then
           match (f.drop 1).toString.toNat? with
@@ -474,7 +494,8 @@ def holdsC08 (h : History) (tr : ImplTrace) : Verdict := Id.run do
               | _ => pure ()
           | none => pure ()
       for (t, _, _) in notifs rec_ do
-        vals := effs ((h.defs.hdls.lookup (tokHdl[t]?.getD 0)).getD []) vals
+        let (vs, wr, dr) := effs ((h.defs.hdls.lookup (tokHdl[t]?.getD 0)).getD []) (vals, written, dropped)
+        vals := vs; written := wr; dropped := dr
     | _ => pure ()
     idx := idx + 1
   return none
